@@ -401,11 +401,12 @@ impl Format {
 
         if let Some(weekday) = weekday {
             // Check that the weekday is correct
-            if weekday != epoch.weekday() {
+            // The weekday must be that of the date which was parsed, in the time scale it was parsed in.
+            if weekday != epoch.gregorian_weekday() {
                 return Err(HifitimeError::Parse {
                     source: ParsingError::WeekdayMismatch {
                         found: weekday,
-                        expected: epoch.weekday(),
+                        expected: epoch.gregorian_weekday(),
                     },
                     details: "weekday and day number do not match",
                 });
